@@ -1,8 +1,13 @@
 package props
 
 import (
+	"crypto/ecdsa"
+	"encoding/hex"
 	"fmt"
+	"math/rand"
 	"time"
+
+	"github.com/google/go-tdx-guest/verify"
 
 	"verifharness/core"
 	"verifharness/world"
@@ -28,21 +33,49 @@ func runScenario(c *core.Ctx, class, desc string, sc *Scenario, gt func(errClass
 }
 
 func C11(c *core.Ctx) {
-	c.Rule = "honest worlds from the generator (fresh PKI and keys, random field contents, SVN vectors, matching UpToDate level, CRLs listing unrelated serials) at the three option levels; QE auth data lengths 0..65535, trailing NUL, extra bytes; verification times anywhere inside all validity windows; the Intel sample quote under the embedded root. non-trivial = every case (each is a full verification); distinct = distinct worlds x level"
+	c.Rule = "honest worlds from the generator (fresh PKI and keys, random field contents, SVN vectors, TDX module versions 0..255, matching UpToDate level, CRLs listing unrelated serials) at the three option levels; QE auth data lengths 0..65535, trailing NUL, extra bytes; signatures with leading zero bytes in r / s; pairwise distinct verification times anywhere inside all validity windows; the Intel sample quote under the embedded root at its reference time. non-trivial = every case (each is a full verification); distinct = distinct worlds x level"
 	r := c.Rng
 	levels := []struct {
 		name     string
 		col, crl bool
 	}{{"signature+chain", false, false}, {"collateral", true, false}, {"collateral+crl", true, true}}
-	n := c.Scale(40, 1500)
+	n := c.Scale(120, 3000)
+	authLens := []int{0, 1, 32, 33, 700, 5000, 65535}
 	for i := 0; i < n; i++ {
-		w, err := world.HonestWorld(r, baseTime)
+		pki, err := world.NewPKI(r, world.PKIOpts{Now: baseTime, Ext: world.RandomSGXExt(r)})
 		if err != nil {
 			panic(err)
 		}
+		f := world.DefaultQuoteFields(r)
+		// TDX module version: zero, small, and values whose hex and decimal renderings differ
+		f.TeeTcbSvn[1] = []byte{0, 0, 1, 9, 10, 0x12, 0x63, 0xff, byte(r.Intn(256))}[r.Intn(9)]
+		switch i % 6 {
+		case 1:
+			f.AuthData = core.RandBytes(r, authLens[r.Intn(len(authLens))])
+		case 2:
+			f.TrailingNUL = true
+		case 3:
+			f.ExtraBytes = core.RandBytes(r, 1+r.Intn(64))
+		case 4:
+			f.AuthData, f.TrailingNUL, f.ExtraBytes = nil, true, []byte{0}
+		}
+		w, err := world.BuildWorld(r, baseTime, pki, f)
+		if err != nil {
+			panic(err)
+		}
+		desc := fmt.Sprintf("world %d (tee[1]=%#x auth=%d nul=%v extra=%d)", i, f.TeeTcbSvn[1], len(f.AuthData), f.TrailingNUL, len(f.ExtraBytes))
+		if i%5 == 0 {
+			// signatures whose r or s has leading zero bytes (DER integers must be minimal)
+			c11LeadingZeroSigs(r, w)
+			desc += " leading-zero signatures"
+		}
+		// a verification time anywhere inside every validity window
+		tm := baseTime.Add(time.Duration(r.Int63n(int64(29*24*time.Hour))) - 12*time.Hour)
 		for _, l := range levels {
 			sc := scenarioFromWorld(w, l.col, l.crl)
-			runScenario(c, "honest/"+l.name, fmt.Sprintf("world %d", i), sc, func(cl uint64, err error) string {
+			sc.Now = &verify.TimeSet{PckCertChain: tm, TcbInfo: tm.Add(time.Minute), QeIdentity: tm.Add(2 * time.Minute), PckCrl: tm.Add(3 * time.Minute), RootCaCrl: tm.Add(4 * time.Minute)}
+			l := l
+			runScenario(c, "honest/"+l.name, desc, sc, func(cl uint64, err error) string {
 				if cl != 0 {
 					return fmt.Sprintf("honest in-date quote rejected at level %s: %v", l.name, err)
 				}
@@ -50,4 +83,47 @@ func C11(c *core.Ctx) {
 			}, true)
 		}
 	}
+	// the genuine Intel sample quote under the embedded root at its reference time
+	if raw, err := readRepoFile("testing/testdata/tdx_prod_quote_SPR_E4.dat"); err == nil {
+		ref := time.Date(2023, time.July, 1, 1, 0, 0, 0, time.UTC)
+		sc := &Scenario{Raw: raw, Now: &verify.TimeSet{PckCertChain: ref, TcbInfo: ref, QeIdentity: ref, PckCrl: ref, RootCaCrl: ref}, Resp: map[string]world.Resp{}, Wall: ref}
+		runScenario(c, "intel-sample", "Intel sample quote, embedded root, reference time", sc, func(cl uint64, err error) string {
+			if cl != 0 {
+				return "the genuine Intel sample quote is rejected under the embedded root at its reference time: " + err.Error()
+			}
+			return ""
+		}, true)
+	}
+}
+
+// c11LeadingZeroSigs re-signs the quote, the QE report and both collateral
+// documents until r or s of each signature starts with a zero byte followed by
+// a byte below 0x80 (every such signature is as honest as any other).
+func c11LeadingZeroSigs(r *rand.Rand, w *world.World) {
+	want := func(sig []byte) bool {
+		return (sig[0] == 0 && sig[1] < 0x80) || (sig[32] == 0 && sig[33] < 0x80)
+	}
+	signUntil := func(key *ecdsa.PrivateKey, msg []byte) []byte {
+		for i := 0; i < 4000; i++ {
+			if s := world.SignRaw(r, key, msg); want(s) {
+				return s
+			}
+		}
+		return world.SignRaw(r, key, msg)
+	}
+	f := w.Fields
+	hdr, body := world.SerializeHeader(f), world.SerializeBody(f)
+	att := w.Quote.AttKey
+	attPub := world.RawPub(&att.PublicKey)
+	sig := signUntil(att, append(append([]byte{}, hdr...), body...))
+	rp := world.SerializeQeReport(f, world.QeReportData(attPub, f.AuthData))
+	qsig := signUntil(w.PKI.Leaf.Key, rp)
+	chain := append([]byte{}, f.ChainPEM...)
+	if f.TrailingNUL {
+		chain = append(chain, 0)
+	}
+	w.Quote.Raw = world.Assemble(hdr, body, sig, attPub, rp, qsig, f.AuthData, chain, f.ExtraBytes)
+	ti, qi := w.TcbInfo.JSON(), w.QeIdentity.JSON()
+	w.TcbInfoBody = world.Envelope("tcbInfo", ti, hex.EncodeToString(signUntil(w.PKI.TcbSigner.Key, ti)))
+	w.QeIdentityBody = world.Envelope("enclaveIdentity", qi, hex.EncodeToString(signUntil(w.PKI.TcbSigner.Key, qi)))
 }
